@@ -46,6 +46,7 @@ struct Dgram {
 	uint64_t ordinal = 0;  // ordinal on that stream
 	uint64_t t_sent = 0;
 	bool redelivery = false; // a copy injected by a redeliver fate
+	bool decoy = false;      // inert datagram queued in front of another one (C12 history differential)
 };
 
 struct Host {
@@ -153,7 +154,9 @@ struct Fate {
 	bool has_replace = false;    // on-path party substitutes the whole datagram
 	Bytes replace;
 	std::vector<Redeliv> redeliv;
-	bool is_default() const { return !drop && !dup && !extra_delay && trunc < 0 && flipbit < 0 && !has_replace && redeliv.empty(); }
+	// on-path party substitutes a synthetic downstream fragment for this answer (same id and question): compact form of `replace`
+	int synth_size = 0; int synth_seq = 0, synth_frag = 0, synth_last = 0; uint64_t synth_key = 0; char synth_enc = 'T';
+	bool is_default() const { return !drop && !dup && !extra_delay && trunc < 0 && flipbit < 0 && !has_replace && redeliv.empty() && !synth_size; }
 };
 
 struct FaultCfg {
@@ -219,6 +222,11 @@ struct Sim {
 
 	// receive buffer residue (C12)
 	int residue_mode = 0;           // 0 zeros, 1 0xFF, 2 marker, 3 previous datagram of other source
+	// C12 history differential: every datagram reaching the server is preceded by an inert query (a name outside the tunnel
+	// domain, ignored without -b) whose content differs between the two runs of a pair: 1 = filler text, 2 = the name of the
+	// previous query of another source.  Whatever the server then does must not depend on which one it was.
+	int decoy_variant = 0;
+	Bytes decoy_prev_name;          // wire-format labels (without root) of the last query from another source
 	Bytes residue_prev;
 
 	// system() result
